@@ -610,7 +610,12 @@ func edgeFacts(from, to *ssa.BasicBlock) []Fact {
 	return nil
 }
 
-func normFact(f Fact) []Fact {
+func normFact(f Fact) []Fact { return normFactN(f, 0) }
+
+// normFactN strips negations and decomposes boolean phis produced by `a && b` / `a || b` in value position
+// (e.g. `switch { case ok && x == y: }`): knowing the phi true (false) excludes the incoming edges that carry the
+// constant false (true); what all remaining edges agree on is known too.
+func normFactN(f Fact, depth int) []Fact {
 	v := f.V
 	for {
 		if u, ok := v.(*ssa.UnOp); ok && u.Op == token.NOT {
@@ -621,7 +626,50 @@ func normFact(f Fact) []Fact {
 		break
 	}
 	f.V = v
-	return []Fact{f}
+	out := []Fact{f}
+	phi, ok := v.(*ssa.Phi)
+	if !ok || depth > 6 {
+		return out
+	}
+	var common map[Fact]bool
+	n := 0
+	for k, e := range phi.Edges {
+		if cv, isC := constOf(e); isC && cv.Kind() == constant.Bool {
+			if constant.BoolVal(cv) != f.True {
+				continue // this edge would give the phi the other value
+			}
+			// constant edge with the known value: contributes only its path facts
+		}
+		pred := phi.Block().Preds[k]
+		set := map[Fact]bool{}
+		if _, isC := constOf(e); !isC {
+			for _, g := range normFactN(Fact{e, f.True}, depth+1) {
+				set[g] = true
+			}
+		}
+		for _, g := range edgeFacts(pred, phi.Block()) {
+			set[g] = true
+		}
+		for _, g := range factsAt(pred) {
+			set[g] = true
+		}
+		n++
+		if common == nil {
+			common = set
+		} else {
+			for g := range common {
+				if !set[g] {
+					delete(common, g)
+				}
+			}
+		}
+	}
+	if n > 0 {
+		for g := range common {
+			out = append(out, g)
+		}
+	}
+	return out
 }
 
 // nilTest decomposes a fact into "x is nil"/"x is non-nil" if it is a comparison against nil.
